@@ -22,7 +22,10 @@ import (
 // timeout; no handler panic other than ErrAbortHandler; after the faults are switched off and
 // windows / breaker timeout have elapsed, the last three of five probes succeed; gauges are 0.
 
-var c03Faults = []string{"refuse", "hang", "reset", "short", "garbage", "500", "slow", "client-abort-upload", "client-abort-download", "status099", "status000"}
+var c03Faults = []string{"refuse", "hang", "reset", "short", "garbage", "500", "slow", "client-abort-upload", "client-abort-download", "status099", "status000",
+	// the backend accepts the connection and never reads: an upload larger than the socket
+	// buffers gets stuck on its way to it
+	"deaf-to-upload"}
 
 type c03Cfg struct {
 	Strategy                           string
@@ -61,6 +64,8 @@ func c03Fault(h *helios, fbs []*wire.FaultBackend, fault string, slowStall time.
 		mode = "healthy"
 	case "client-abort-download":
 		mode = "big"
+	case "deaf-to-upload":
+		mode = "deaf"
 	}
 	for _, fb := range fbs {
 		fb.Stall = slowStall
@@ -78,6 +83,27 @@ func c03Fault(h *helios, fbs []*wire.FaultBackend, fault string, slowStall time.
 		fmt.Fprintf(c, "POST /up HTTP/1.1\r\nHost: x.test\r\nContent-Length: 100000\r\n\r\n%s", strings.Repeat("u", 1000))
 		time.Sleep(50 * time.Millisecond)
 		return "client-aborted", time.Since(start)
+	case "deaf-to-upload":
+		const size = 48 << 20
+		fmt.Fprintf(c, "POST /up HTTP/1.1\r\nHost: x.test\r\nContent-Type: application/octet-stream\r\nContent-Length: %d\r\nConnection: close\r\n\r\n", size)
+		go func() {
+			block := []byte(strings.Repeat("u", 64<<10))
+			for sent := 0; sent < size; sent += len(block) {
+				if _, err := c.Write(block); err != nil {
+					return
+				}
+			}
+		}()
+		data := make([]byte, 12)
+		_, rerr := io.ReadFull(c, data)
+		d := time.Since(start)
+		if ne, ok := rerr.(net.Error); ok && ne.Timeout() {
+			return "hung", d
+		}
+		if rerr == nil && strings.HasPrefix(string(data), "HTTP/1.1 ") {
+			return "status " + string(data[9:12]), d
+		}
+		return "closed", d
 	case "client-abort-download":
 		fmt.Fprintf(c, "GET /big HTTP/1.1\r\nHost: x.test\r\nAccept-Encoding: gzip\r\n\r\n")
 		buf := make([]byte, 1024)
